@@ -471,7 +471,7 @@ fn body(c: &mut Ctx, len_menu: &[usize], dev_cfg: bool) {
             let key = if known {
                 "C14/graph-section-approved-by-summed-element-counts".to_string()
             } else {
-                format!("C14/{ename}-chunk-not-oversized-but-over-budget")
+                format!("C14/{ename}-not-oversized-but-over-budget")
             };
             c.fail(
                 key,
@@ -509,14 +509,19 @@ fn body(c: &mut Ctx, len_menu: &[usize], dev_cfg: bool) {
             if !ok {
                 // exact signature of the one known cause: the graph chunker stamps a section's
                 // sub-chunks with the *title's own parent_heading* instead of the title text
-                let title_parent = sources
-                    .first()
-                    .and_then(|_| {
-                        // the governing title of the section = nearest title at or before the first source
-                        (0..=sources[0]).rev().find(|&t| matches!(input[t], Element::Title(_)))
-                    })
-                    .and_then(|t| input[t].metadata().parent_heading.as_deref());
-                let key = if cfg.graph && got.is_some() && got == title_parent {
+                // i.e. some title t carries parent_heading == got, and every element of this
+                // chunk is a non-title child of t (parent_heading == text of t, positioned after t)
+                let title_parent_signature = got.is_some()
+                    && (0..len).any(|t| {
+                        matches!(input[t], Element::Title(_))
+                            && input[t].metadata().parent_heading.as_deref() == got
+                            && sources.iter().all(|&i| {
+                                i > t
+                                    && !matches!(input[i], Element::Title(_))
+                                    && input[i].metadata().parent_heading.as_deref() == Some(input[t].text())
+                            })
+                    });
+                let key = if cfg.graph && title_parent_signature {
                     "C14/graph-heading-is-the-titles-parent-heading-not-the-section-title".to_string()
                 } else {
                     format!("C14/{ename}-heading-context-not-a-heading-of-the-chunk")
